@@ -350,25 +350,28 @@ class Src:
             # fast path: the requested count very often equals the length of a whole prefix of the
             # remaining items (a length field read back); guess the boundary from a model and fork once
             c = ctx()
-            try:
+
+            def guess():
                 m = c.get_model()
                 nv = m.eval(need.e, model_completion=True).as_signed_long()
                 run, k = 0, self.i
-                total = 0
                 while k < _len(self.items) and run < nv:
                     it = self.items[k]
                     ln = it.length if type(it) is Blob else 1
                     run += m.eval(ln.e, model_completion=True).as_signed_long() if type(ln) is SymInt else ln
-                    total = total + ln
                     k += 1
-                if run == nv and k > self.i:
-                    eq = (need == total)
-                    if (eq if type(eq) is bool else c.branch(eq.e)):
-                        out = self.items[self.i:k]
-                        self.i = k
-                        return [it for it in out if not (type(it) is Blob and type(it.length) is int and it.length == 0)]
-            except PathAbort:
-                raise
+                return k if (run == nv and k > self.i) else None
+
+            k = c.recorded(guess)
+            if k is not None and self.i < k <= _len(self.items):
+                total = 0
+                for it in self.items[self.i:k]:
+                    total = total + (it.length if type(it) is Blob else 1)
+                eq = (need == total)
+                if (eq if type(eq) is bool else c.branch(eq.e)):
+                    out = self.items[self.i:k]
+                    self.i = k
+                    return [it for it in out if not (type(it) is Blob and type(it.length) is int and it.length == 0)]
         while True:
             self._skip_empty()
             if need is not None:
